@@ -54,6 +54,28 @@ def make_node(eng, st, prov, prefix, parent=None, is_root=False, oid=None, direc
         "children": children, "type": otype, "is_root": TRUE if is_root else FALSE}, meta={"tag": "cachenode", "prefix": p}))
 
 
+def make_node_stub(name, maybe_none):
+    """opaque callee that yields some node of the cache (arbitrary fields, hanging under an arbitrary directory) -- or,
+    with `maybe_none`, nothing; the call is logged"""
+    short = name.split(".")[-1]
+
+    def h(eng, st, self_v, args, kwargs):
+        from .engine import Effect
+        eff = Effect("mgr", short, list(args), dict(kwargs), None, tag=BT)
+        st.effects.append(eff)
+        prov = st.obj(self_v).fields["_provider"]
+        parent = make_node(eng, st, prov, short + ".parent", directory=True)
+        n = make_node(eng, st, prov, short + ".node", parent=parent)
+        if maybe_none:
+            isn = z3.Bool(P.fresh_name(short + "?none"))
+            rv = mk_union([(isn, NONE), (znot(isn), n)])
+        else:
+            rv = n
+        eff.result = rv
+        return eng.ok(st, rv)
+    return h
+
+
 def fx_cache(eng, st, pname):
     from . import world, fixtures
     world.install_provider_api(eng)
@@ -63,7 +85,10 @@ def fx_cache(eng, st, pname):
     for nm in list(eng.cur_lemma.opts.get("stubs", {})) + list(eng.cur_lemma.opts.get("inline", ())):
         world._require_function(eng, nm)
     for nm, spec in eng.cur_lemma.opts.get("stubs", {}).items():
-        eng.handlers[nm] = world.make_stub(nm, tuple(spec.get("results", ("None",))), spec.get("raises", False), False)
+        if "node?" in spec.get("results", ()) or "node" in spec.get("results", ()):
+            eng.handlers[nm] = make_node_stub(nm, maybe_none="node?" in spec["results"])
+        else:
+            eng.handlers[nm] = world.make_stub(nm, tuple(spec.get("results", ("None",))), spec.get("raises", False), False)
         cname, _, meth = nm.partition(":")[2].partition(".")
         if meth.startswith("_%s__" % cname):      # private method: the engine resolves it under its unmangled name
             eng.handlers[nm.replace("." + meth, "." + meth[len(cname) + 1:])] = eng.handlers[nm]
